@@ -50,6 +50,7 @@ type j2tDoc struct {
 	Oracle func(bits int) int
 	Ref    func(bits int) []byte // expected encoding where the harness knows it (classes only)
 	Tag    string
+	OrBits int // option bits set in EVERY option subset of this document (bits beyond the five swept ones)
 }
 
 type j2tDesc struct {
@@ -101,7 +102,7 @@ func (d *j2tDoc) run() core.Result {
 		verifhook.C18UseFlavour(f)
 		res[i] = make([]Outcome, nopt)
 		for b := 0; b < nopt; b++ {
-			res[i][b] = ConvertLocal(desc, b, doc)
+			res[i][b] = ConvertLocal(desc, b|d.OrBits, doc)
 		}
 	}
 	if len(fl) > 0 {
@@ -109,7 +110,7 @@ func (d *j2tDoc) run() core.Result {
 	}
 	opts := make([]int, nopt)
 	for b := range opts {
-		opts[b] = b
+		opts[b] = b | d.OrBits
 	}
 	pr, died, diag, err := Portable(&Req{IDL: d.IDL, Inner: d.Inner, Opts: opts, Doc: doc})
 	if err != nil {
@@ -992,6 +993,26 @@ func enumAliasKeys(yield func(core.Case) bool) {
 			jd := &j2tDoc{Fam: fmt.Sprintf("alias-keys-with-low-bytes/%d", fi), Trig: "keys/alias-with-a-byte-below-'.'", IDL: idl, Doc: doc, Oracle: func(int) int { return oDiff }}
 			if !yield(jd.Case()) {
 				return
+			}
+		}
+	}
+}
+
+// enumJSConv: api.js_conv fields under EnableValueMapping (the native converter handles them inline, the portable one
+// through thrift/annotation): integers on both sides of 2^53 and at the i64 limits, quoted and bare.
+func enumJSConv(yield func(core.Case) bool) {
+	idl := "namespace go verif\nstruct S0 {\n  1: i64 id (api.js_conv = \"true\")\n  2: i32 n (api.js_conv = \"true\")\n  3: string tail\n}\nstruct Root {\n  1: S0 f1\n}\nservice Svc {\n  Root M(1: Root req)\n}\n"
+	for _, v := range []string{"12", "-12", "9007199254740992", "9007199254740993", "-9007199254740993", "7234567890123456789", "9223372036854775807", "-9223372036854775808"} {
+		for _, q := range []bool{true, false} {
+			lit := v
+			if q {
+				lit = `"` + v + `"`
+			}
+			for _, doc := range []string{`{"f1":{"id":` + lit + `}}`, `{"f1":{"id":` + lit + `,"n":"7","tail":"t"}}`} {
+				jd := &j2tDoc{Fam: "js_conv-integers", Trig: "value-mapping/js_conv-i64", IDL: idl, Doc: doc, Oracle: func(int) int { return oDiff }, OrBits: OEnableValueMapping}
+				if !yield(jd.Case()) {
+					return
+				}
 			}
 		}
 	}
